@@ -72,6 +72,7 @@ def analyze(scenario, log):
     ev_time, ev_wait = {}, {}                 # (owner, variable) -> time of the user event whose handle is there; pid -> awaited time
     ended_holding_pool = [False] * 64
     wsums = {}
+    any_res_preempt = any(l.startswith("c ") and len(l.split()) > 4 and l.split()[4] == "pre" for l in log)
     intr_used = set()                         # (pid, index into notif[pid]) of interrupts already matched to a return
     dump = {}
     hist = {}
@@ -296,7 +297,7 @@ def analyze(scenario, log):
             if op == "ppre" and pid in ppre_active:
                 ppre_active[pid] = (ppre_active[pid][0], ppre_active[pid][1], li)
             # ---------------- C07: pool preemption only takes from strictly lower priority ----------------
-            if val == -1 and op in BLOCKING and objs["res"] == 0:
+            if val == -1 and op in BLOCKING and (objs["res"] == 0 or not any_res_preempt):
                 def pr_range(q, lo):
                     vals = [v for (i, v) in prio_hist[q] if i >= lo]
                     before = [v for (i, v) in prio_hist[q] if i < lo]
